@@ -180,14 +180,33 @@ def buildOutput(sections: list, out: OrderedDict):
             counts[name][1] = modifier + 1
 
 
+def keyEndIndex(line: str) -> int:
+    """
+    Returns the index of the closing quote of the key on a '"key": value'
+    line of indented JSON, or -1 if the line does not start with a key.
+    """
+    i = len(line) - len(line.lstrip(" "))
+    if not line.startswith("\"", i):
+        return -1
+    i += 1
+    while i < len(line):
+        if line[i] == "\\":
+            i += 2
+            continue
+        if line[i] == "\"":
+            return i if line.startswith("\":", i) else -1
+        i += 1
+    return -1
+
+
 def prettyPrint(Mdata: str, desiredSpace: int = 34) -> str:
     # After index of these 2 characters ":  need to add desired space.
     CHARACTER_SPACE = 2
     lines = Mdata.split("\n")
     for i in range(len(lines)):
         line = lines[i]
-        if "\":" in line and "{" not in line:
-            ind = line.index("\":")
+        ind = keyEndIndex(line)
+        if ind != -1 and "{" not in line:
             spaces = (desiredSpace - ind) * " "    # Calculating spaces needed to add to get the desired spacing.
             ind += CHARACTER_SPACE
             lines[i] = line[:ind] + spaces + line[ind:]
